@@ -659,10 +659,10 @@ impl RJudge<'_> {
             return format!("{detail}|honest|{}{do_tag}", ground_kind(b, &last.qname, last.qtype));
         }
         if last.faults.len() > 1 {
-            return format!("{detail}|multi-fault{do_tag}");
+            return format!("{detail}|multi-fault:{}{do_tag}", crate::fault_kinds(last.faults.iter().map(|f| f.fault.kind.as_str())));
         }
         let f = &last.faults[0].fault;
-        format!("{detail}|{}|{}{do_tag}", kind_base(&f.kind), sig_link(&f.link))
+        format!("{detail}|{}|{}{do_tag}", f.kind, sig_link(&f.link))
     }
 
     fn report(&mut self, b: &Bench, steps: &[RStep], a: RAlarm, workload: &str) {
